@@ -131,6 +131,29 @@ func (s *SeekSource) Seek(off int64, whence int) (int64, error) {
 	return np, nil
 }
 
+// AtSeekSource is a SeekSource that also offers positioned reads. As io.ReaderAt allows, a read that ends exactly
+// at the end of the data returns its bytes together with io.EOF (EOFWithData); the fault offset applies to
+// positioned reads as well.
+type AtSeekSource struct{ SeekSource }
+
+func (s *AtSeekSource) ReadAt(p []byte, off int64) (int, error) {
+	if off < 0 {
+		return 0, errors.New("negative offset")
+	}
+	if off >= int64(len(s.Data)) {
+		return 0, io.EOF
+	}
+	n := copy(p, s.Data[off:])
+	if s.FailAt >= 0 && int64(s.FailAt) >= off && int64(s.FailAt) < off+int64(n) && !(s.OneShot && s.Fired) {
+		s.Fired = true
+		return s.FailAt - int(off), ErrInjected
+	}
+	if n < len(p) || (s.EOFWithData && off+int64(n) == int64(len(s.Data))) {
+		return n, io.EOF
+	}
+	return n, nil
+}
+
 // AttSource produces attachment data with a fault after J bytes.
 type AttSource struct {
 	Data  []byte
